@@ -983,7 +983,8 @@ static Val gen_val(vf::Rng& r, Scenario& sc, int t) {
     }
     return v;
 }
-static int gen_param_type(vf::Rng& r, bool useObjs) {
+static int gen_param_type(vf::Rng& r, bool useObjs, int objShare = 0) {
+    if (useObjs && objShare && r.chance(objShare)) return V_OBJ;
     int k = (int) r.below(100);
     if (k < 52) return V_INT + (int) r.below(6);
     if (k < 58) return V_BOOL;
@@ -1087,10 +1088,12 @@ static Stmt actual_of(const Plan& pl, vf::Rng& r, Scenario& sc, bool mutate) {
     return s;
 }
 
-static void gen_random(vf::Rng& r, Scenario& sc, bool thorough) {
+// focusObjs: the custom-type variant of the generator - comparators / copiers are always in play, object parameters and typed outputs dominate
+static void gen_random(vf::Rng& r, Scenario& sc, bool thorough, bool focusObjs = false) {
     bool usesIgnore = r.chance(22);
     sc.ignoredPossible = usesIgnore;
-    bool useObjs = r.chance(35);
+    bool useObjs = focusObjs || r.chance(35);
+    int objShare = focusObjs ? 50 : 12;
     int mainScope = (int) r.below(3);
     auto pickScope = [&] { return r.chance(75) ? mainScope : (int) r.below(3); };
     int failBias = (int) r.below(100);                   // ~45 % of the scenarios carry no deliberate mutation
@@ -1122,12 +1125,12 @@ static void gen_random(vf::Rng& r, Scenario& sc, bool thorough) {
         for (int i = 0; i < nplan; i++) {
             Plan pl; pl.scope = pickScope(); pl.fn = FNAMES[r.below(3)];
             int np = (int) r.below(100); np = np < 20 ? 0 : np < 60 ? 1 : np < 88 ? 2 : 3;
-            for (int j = 0; j < np; j++) { Param p; p.kind = P_IN; p.name = r.chance(97) ? PNAMES[j] : PNAMES[0]; p.v = gen_val(r, sc, gen_param_type(r, useObjs)); if (p.v.t == V_DOUBLE && r.chance(40)) { p.v.hasTol = true; p.v.tol = TPOOL[r.below(sizeof TPOOL / sizeof TPOOL[0])]; } pl.ps.push_back(p); }
-            int no = (int) r.below(100); no = no < 72 ? 0 : no < 95 ? 1 : 2;
+            for (int j = 0; j < np; j++) { Param p; p.kind = P_IN; p.name = r.chance(97) ? PNAMES[j] : PNAMES[0]; p.v = gen_val(r, sc, gen_param_type(r, useObjs, objShare)); if (p.v.t == V_DOUBLE && r.chance(40)) { p.v.hasTol = true; p.v.tol = TPOOL[r.below(sizeof TPOOL / sizeof TPOOL[0])]; } pl.ps.push_back(p); }
+            int no = (int) r.below(100); no = no < (focusObjs ? 55 : 72) ? 0 : no < 95 ? 1 : 2;
             for (int j = 0; j < no; j++) {
                 Param p; p.name = ONAMES[j];
                 int k = (int) r.below(100);
-                if (k < 55 || (k < 85 && !useObjs && !r.chance(15))) { p.kind = P_OUT_RAW; p.mi = add_mem(sc, gen_bytes(r, OUT_SIZE)); }
+                if (k < (focusObjs ? 15 : 55) || (k < 85 && !useObjs && !r.chance(15))) { p.kind = P_OUT_RAW; p.mi = add_mem(sc, gen_bytes(r, OUT_SIZE)); }
                 else if (k < 85) { p.kind = P_OUT_TYPED; p.ot = useObjs ? (int) r.below(2) : (int) r.below(3); p.oi = (int) r.below(4); if (r.chance(20)) p.oi = -1 - (int) r.below(OUT_BUFS); }
                 else p.kind = P_OUT_UNMODIFIED;
                 pl.ps.push_back(p);
@@ -1168,6 +1171,11 @@ static void gen_random(vf::Rng& r, Scenario& sc, bool thorough) {
 static void sec_random(vf::Ctx& c) {
     Scenario sc;
     gen_random(c.rng, sc, c.thorough);
+    run_scenario(c, sc);
+}
+static void sec_random_objs(vf::Ctx& c) {
+    Scenario sc;
+    gen_random(c.rng, sc, c.thorough, true);
     run_scenario(c, sc);
 }
 
@@ -1441,6 +1449,7 @@ int main(int argc, char** argv) {
         { "support_getters_after_ignored_call", T_IGNORED.size(), T_IGNORED.size(), sec_ignored, true },
         { "custom_type_adaptor_table", T_ADAPT.size(), T_ADAPT.size(), sec_adapt, true },
         { "random_scenarios", 30000, 600000, sec_random, false },
+        { "random_custom_type_scenarios", 6000, 100000, sec_random_objs, false },
     };
     return vf::harness_main(argc, argv, S, nullptr);
 }
